@@ -357,6 +357,7 @@ class Network:
             self.verified_peers = new_verified_peers
             for peer in removed_peers:
                 self.verified_by_public_key_bin.pop(peer.public_key.key_to_bin(), None)
+                self._forget_cached_peer(peer)
                 list(map(methodcaller("on_peer_removed", peer), self.peer_observers))
 
     def remove_peer(self, peer: Peer) -> None:
@@ -373,6 +374,17 @@ class Network:
                 list(map(methodcaller("on_peer_removed", peer), self.peer_observers))
             self.verified_by_public_key_bin.pop(peer.public_key.key_to_bin(), None)
             self.services_per_peer.pop(peer.public_key.key_to_bin(), None)
+            self._forget_cached_peer(peer)
+
+    def _forget_cached_peer(self, peer: Peer) -> None:
+        """
+        Drop a removed peer from the lookup caches: it may be added again later, as a different instance.
+        """
+        for address in [a for a, cached in self.reverse_ip_lookup.items() if cached == peer]:
+            self.reverse_ip_lookup.pop(address, None)
+        for service_cache in self.reverse_service_lookup.values():
+            if peer in service_cache:
+                service_cache.remove(peer)
 
     def snapshot(self) -> bytes:
         """
